@@ -849,7 +849,8 @@ def t_call(E):
         def key_ok(k, node):
             kk = k if isinstance(k, VStr) else None
             E.oblige(Qn + '/frame.retention_cache_is_only_subscripted_with_the_calls_key',
-                     z3.BoolVal(kk is not None) if kk is None else kk.t == st['k'], props={'C11'})
+                     z3.BoolVal(kk is not None) if kk is None else kk.t == st['k'], props={'C11', 'C09', 'C04'},
+                     detail='every lookup, registration and eviction of one call concerns THIS call\'s key')
 
         def getitem(E_, obj, k, node):
             if obj is st['rc']:
@@ -925,7 +926,8 @@ def t_call(E):
                         d, fn_ = a[0], a[1]
                         ok = isinstance(fn_, VStub) and fn_.name == 'dict.pop' and len(a) in (3, 4) and isinstance(a[2], VStr)
                         E.oblige(Qn + '/forget.timer_pops_this_key_from_the_retention_cache',
-                                 z3.And(z3.BoolVal(ok), a[2].t == st['k'] if ok else z3.BoolVal(False)), props={'C11'})
+                                 z3.And(z3.BoolVal(ok), a[2].t == st['k'] if ok else z3.BoolVal(False)),
+                                 props={'C11', 'C09'})
                         E.oblige(Qn + '/forget.timer_delay_is_retention_timeout', _real(d) == st['retention'],
                                  props={'C11'})
                         E.w['tmr'] = E.w['tmr'] + 1
@@ -982,7 +984,7 @@ def t_call(E):
             if isinstance(v, Obj) and v.cls == 'AFuture':
                 # awaiting the shared future directly: cancelling this caller cancels the future (C09)
                 st.setdefault('awaits', []).append(('bare', v.fields['fut']))
-                E.oblige(Qn + '/await.shared_future_is_awaited_through_shield', z3.BoolVal(False), props={'C09'},
+                E.oblige(Qn + '/await.shared_future_is_awaited_through_shield', z3.BoolVal(False), props={'C09', 'C04'},
                          detail='a bare await lets a cancelled caller cancel the future shared with other callers')
                 raise PathEnd()
             return None
